@@ -3,6 +3,11 @@
 import json, subprocess
 
 BUILT = {
+ "C04": dict(level="exploration",
+   technique="differential testing (function-result cache on vs off through a build-tag hook) of stateful REPL histories and typed-grammar programs; oracle = identical per-input output, echo, error/no-error and final globals",
+   text="A stateful generator builds REPL histories that define and redefine functions and lambdas from body templates (pure, global-reading, constant-reading, callee-calling, printing, failing, impure through a harness-registered DontCache extension, recursive, closure factories capturing numbers, strings, upper-case names and function values, counters with mutable captured state), call them with arguments from a small pool and repeat earlier calls verbatim, mutate globals, delete and re-create names; the same history runs on two fresh states with the cache enabled and with every lookup forced to miss, and every input's output, echo, error presence and the final globals must agree. The hook's hit counter measures that a history really had cache hits after a state change. Stale hits need a pair of calls separated by a particular state change (found: redefined callee, deleted constant, captured function value, -0.0 vs 0.0, cached closure result, cached caller of an impure callee, new global).",
+   note="Uses the verif build tag (eval/verif_on.go). A defect present with and without the cache is invisible here. rand/time.now are represented by the harness's own impure extension.",
+   ref="DESIGN.md section 3, C04"),
  "C06": dict(level="exploration",
    technique="stateful model-based testing (rapid): operation histories over 6 variables against a value-semantics model with a check of every live binding after every statement",
    text="Histories of 10-40 statements (bind literals of 0..20 elements, copy, store inside a container and read back, index / key / field assignment incl. negative index, append, concat, merge, two appends from one base, del, slice, rest, pass to a mutating function, mutate while iterating, ++ on an element copy) run on one session; the model deep-copies on every bind and after EVERY statement every live variable must evaluate to the model's value, so any operation that changes a binding it was not applied to is caught at the step where it happens. Sizes are drawn on both sides of the 8-element / 4-pair thresholds. In-place mutation of shared large containers and appends into shared spare capacity are genuine defects recorded as known findings; the machine tracks storage provenance only to exclude exactly those steps.",
